@@ -458,3 +458,39 @@ func checkUniqueNaming(c *core.Ctx, rule string) {
 		c.Decide(bad == "", rule, key, fn.Decl.Pos(), n, "duplicates are renamed in a loop until the candidate is unused", bad)
 	}
 }
+
+// checkUniqueNameComparison (UNIQCMP): after typechecking, columns are known by unique names (`k_0`, `a.k_0`).
+// physical.VariableNameMatchesField is the matcher for *user-facing* names — it lets an unqualified `k` match a
+// qualified `a.k` — and applied to unique names it equates `k_0` (a derived column aliased k) with `a.k_0` (column k
+// of table a): the planner then believes an expression uses columns of both join sides. Only the resolver of
+// user-facing names may call it; unique names are compared exactly.
+func checkUniqueNameComparison(c *core.Ctx, rule string) {
+	p := c.Prog
+	allowed := map[string]string{
+		"logical.GetUniqueNameMatchingVariable": "resolves a user-facing name against the user-facing keys of the name mapping",
+	}
+	n := 0
+	for _, fr := range p.AllFuncs("logical", "physical", "optimizer", "execution", "cmd", "parser") {
+		if strings.HasSuffix(p.Fset.File(fr.Decl.Pos()).Name(), "_test.go") {
+			continue
+		}
+		info := fr.Info()
+		name := p.FName(fr)
+		ast.Inspect(fr.Decl.Body, func(nd ast.Node) bool {
+			call, ok := nd.(*ast.CallExpr)
+			if !ok || p.CalleeName(info, call) != "physical.VariableNameMatchesField" {
+				return true
+			}
+			n++
+			c.SawFunc(name)
+			if why, ok := allowed[name]; ok {
+				c.OK(rule, name+"→VariableNameMatchesField", call.Pos(), 1, why)
+			} else {
+				c.Bad(rule, name+"→VariableNameMatchesField", call.Pos(), 1, "unique column names are compared with the matcher for user-facing names, which ignores a missing qualifier: `k_0` (a derived column aliased k) matches `a.k_0` (column k of table a), so an expression over one join side is taken to use both — an outer join with such a derived table is rejected, and an inner join loses its join key")
+			}
+			return true
+		})
+	}
+	c.Floor(rule, 1, "callers of the user-facing name matcher")
+	_ = n
+}
